@@ -24,7 +24,7 @@ LEVEL = "exploration"
 RULE = ("seeded histories of `with` blocks (one or two objects on the chip) containing mac/name/show_pa_level/pa_level/"
         "hop_channel()/channel= assignments (valid and invalid) and advertise() calls with single buffers and chunk "
         "lists whose total sits around the capacity boundary (-2..+2), the same list object of chunk() results advertised again, a sibling RF24 object "
-        "whose send() to an absent peer fails right before it hands the radio back; thorough adds the complete grid name length "
+        "that re-configures itself (C03 alphabet) and whose send() to an absent peer fails right before it hands the radio back; MCU personalities from 0 to 400 us per SPI transaction; thorough adds the complete grid name length "
         "0..20 x show_pa_level x PA level x chunk length. Every on-air payload is decoded by an independent spec-derived "
         "codec for the channel actually tuned. Non-trivial: at least one advertisement was transmitted; distinct = "
         "distinct (history of call names, name length, show_pa_level, chunk lengths)")
@@ -122,20 +122,27 @@ def make(i, base_seed, tier):
         k_ += 1
     if scn["second"] == "RF24":
         # the plain RF24 object sharing the radio sends to a peer that is not there (auto-ack on: all attempts unacknowledged)
-        # right before it hands the radio back
+        # right before it hands the radio back; inside its blocks it also re-configures itself (the C03 alphabet: payload lengths,
+        # address width, CRC, retries, ...) - none of which may leak into the BLE object's packets
+        from checks import c03 as _c03
         k_ = 0
         while k_ < len(ops):
-            if ops[k_]["op"] == "exit" and ops[k_]["who"] == 1 and xr.random() < 0.7:
-                ops.insert(k_, {"op": "failed_send"})
-                k_ += 1
+            if ops[k_]["op"] == "exit" and ops[k_]["who"] == 1:
+                extra = [{"op": "sibling_cfg", "call": _c03._rand_op(xr)} for _ in range(xr.randint(0, 4))]
+                if xr.random() < 0.7:
+                    extra.append({"op": "failed_send"})
+                ops[k_:k_] = extra
+                k_ += len(extra)
             k_ += 1
+    # MCU personality: from a bare-metal MCU that polls the radio every microsecond to an interpreter that needs 400 us per transaction
+    scn["spi_us"] = xr.choice([0, 0, 1, 30, 30, 150, 400])
     scn["ops"] = ops
     return scn
 
 
 def run(scn):
     res = Result()
-    w = World(scn["seed"], max_events=400_000, max_time=120_000 * MS)
+    w = World(scn["seed"], max_events=400_000, max_time=120_000 * MS, main_knobs={"spi_overhead_us": scn.get("spi_us", 30), "spi_jitter_us": 0})
     try:
         _run(scn, w, res)
     except SimAbort:
@@ -192,6 +199,15 @@ def _run(scn, w, res):
                     obj.pa_level = op["v"]
                 elif o == "hop_channel":
                     obj.channel = 90
+                elif o == "sibling_cfg":
+                    from checks import c03 as _c03
+                    if op["call"][0] in ("start_carrier_wave", "stop_carrier_wave") and not obj.is_plus_variant:
+                        continue
+                    try:
+                        _c03.call(obj, op["call"])
+                    except (ValueError, IndexError, NotImplementedError):
+                        pass
+                    sim.count("sibling_reconfigured")
                 elif o == "failed_send":
                     obj.listen = False
                     obj.open_tx_pipe(b"\x31\x4e\x6f\x64\x65")
